@@ -18,7 +18,10 @@ def schema(ver):
            ''.join(f'<xs:import namespace="{x}"/>' for x in URIS[1:]) + \
            '<xs:element name="n"><xs:complexType><xs:sequence><xs:any namespace="##any" processContents="lax" minOccurs="0" maxOccurs="unbounded"/></xs:sequence>' \
            '<xs:anyAttribute namespace="##any" processContents="lax"/></xs:complexType></xs:element></xs:schema>'
-    return _cls(ver)(main)
+    # a declared simple-content element, in a namespace of its own so that the main schema keeps a single global element (the one an encode call selects by default)
+    other = f'<xs:schema {XS} targetNamespace="urn:s" elementFormDefault="qualified"><xs:element name="s"><xs:complexType><xs:simpleContent><xs:extension base="xs:string">' \
+            '<xs:anyAttribute namespace="##any" processContents="lax"/></xs:extension></xs:simpleContent></xs:complexType></xs:element></xs:schema>'
+    return _cls(ver)([main, other])
 
 
 def gen(rng, depth, scope):
@@ -35,7 +38,18 @@ def gen(rng, depth, scope):
     # simple-content leaves in no namespace: when a default namespace is in scope it has to be undeclared on the leaf itself (xmlns="")
     if rng.random() < 0.35:
         kids += ('<c xmlns="">t</c>' if sc.get('') else '<c>t</c>')
-    return f'<{tag}{xmlns}>{kids}</{tag}>'
+    # a declared simple-content leaf with a qualified attribute whose prefix is inherited, or declared / redeclared on the leaf itself
+    if rng.random() < 0.4:
+        ap = rng.choice(['p', 'q', 'r']); redecl = rng.random() < 0.5 or ap not in sc
+        kids += f'<e:s xmlns:e="urn:s"' + (f' xmlns:{ap}="{rng.choice(URIS)}"' if redecl else '') + f' {ap}:ga="1" plain="2">t</e:s>'
+    # a qualified attribute on the element itself, its prefix from the declarations in scope here
+    named = [k for k in sc if k]
+    at = f' {rng.choice(named)}:a="1"' if named and rng.random() < 0.4 else ''
+    return f'<{tag}{xmlns}{at}>{kids}</{tag}>'
+
+
+KNOWN_A = 'C17-unprefixed-attribute-key-encoded-into-the-default-namespace'
+KNOWN_B = 'C17-default-namespace-attribute-decoded-to-an-unprefixed-key'
 
 
 def own(v):
@@ -47,7 +61,7 @@ def own(v):
     return d
 
 
-def check(data, elem, scope, bad, path='/'):
+def check(data, elem, scope, bad, path='/', attrs=False):
     sc = dict(scope); sc.update(own(data))
     if not isinstance(data, dict): return
     children = list(elem)
@@ -58,6 +72,14 @@ def check(data, elem, scope, bad, path='/'):
         p, _, local = k.rpartition(':')
         uri = sc2.get(p) if ':' in k else sc2.get('', '')
         return f'{{{uri}}}{local}' if uri else local
+    # attribute keys: a prefixed key resolves with the declarations in scope at the element (its own included), an unprefixed one is in no namespace
+    akeys = sorted((f'{{{sc.get(k[1:].partition(":")[0])}}}' + k.partition(':')[2]) if ':' in k else k[1:] for k in data if k.startswith('@') and not k.startswith('@xmlns'))
+    if attrs and akeys != sorted(elem.attrib):
+        # listed finding: an attribute in the namespace that is also the default one is reported under an unprefixed key (which, read by the rules of XML, is in no namespace)
+        dflt = sc.get('')
+        as_lib = sorted(f'{{{dflt}}}{k[1:]}' if dflt and ':' not in k and ('{' + dflt + '}' + k[1:]) in elem.attrib else
+                        ((f'{{{sc.get(k[1:].partition(":")[0])}}}' + k.partition(':')[2]) if ':' in k else k[1:]) for k in data if k.startswith('@') and not k.startswith('@xmlns'))
+        bad.append((KNOWN_B if as_lib == sorted(elem.attrib) else path + '@', akeys, sorted(elem.attrib))); return
     want = [c.tag for c in children]
     items = []
     for k in keys:
@@ -67,7 +89,7 @@ def check(data, elem, scope, bad, path='/'):
     pools = {}
     for k, v, n in items: pools.setdefault(n, []).append(v)
     for c in children:
-        v = pools[c.tag].pop(0); check(v, c, sc, bad, path + c.tag.split('}')[-1] + '/')
+        v = pools[c.tag].pop(0); check(v, c, sc, bad, path + c.tag.split('}')[-1] + '/', attrs)
 
 
 def tree_sig(e):
@@ -87,14 +109,16 @@ def eval_doc(args):
         data, errors = s.decode(doc, validation='lax')
     except Exception as e:
         return dict(doc=doc, ver=ver, problem=f'decode raised {type(e).__name__}: {e}')
-    bad = []; check(data, root, {}, bad)
+    bad = []; check(data, root, {}, bad, attrs=True)
+    if bad and bad[0][0] == KNOWN_B: return dict(doc=doc, ver=ver, known=KNOWN_B)
     if bad: return dict(doc=doc, ver=ver, problem=dict(path=bad[0][0], keys=bad[0][1], expected=bad[0][2]))
     # user-supplied namespace maps that collide with the document's own declarations, alias them or cover them partly: the keys resolve with the user's map
     # overlaid by the declarations the data reports
     for um in ({'p': 'urn:v'}, {'p': 'urn:w', 'q': 'urn:u'}, {'z': 'urn:u'}, {'q': 'urn:w'}):       # (a user-supplied DEFAULT namespace cannot coexist with the no-namespace leaves of these documents: not judged)
         try: d3 = s.decode(doc, validation='lax', namespaces=um)[0]
         except Exception as e: return dict(doc=doc, ver=ver, problem=f'decode with namespaces={um} raised {type(e).__name__}: {e}')
-        b3 = []; check(d3, root, dict(um), b3)
+        b3 = []; check(d3, root, dict(um), b3, attrs=True)
+        if b3 and b3[0][0] == KNOWN_B: return dict(doc=doc, ver=ver, known=KNOWN_B)
         if b3: return dict(doc=doc, ver=ver, problem=dict(user_map=um, path=b3[0][0], keys=b3[0][1], expected=b3[0][2]))
     # encode restores the expanded names.  Decided for documents of at most three element levels; deeper documents are reported only:
     # below a wildcard-matched grandchild the encoder loses track of the nesting level and pops xmlns contexts too early (an open
@@ -103,12 +127,24 @@ def eval_doc(args):
     try:
         enc = s.encode(data, validation='lax')
         enc = enc[0] if isinstance(enc, tuple) else enc
-        def names(e): return [e.tag] + [n for c in e for n in names(c)]
+        def names(e): return [e.tag] + ['@' + a for a in e.attrib] + [n for c in e for n in names(c)]
         if enc is not None and sorted(names(enc)) != sorted(names(root)):
             en, rn = sorted(names(enc)), sorted(names(root))
-            if 'xmlns=""' in doc and len(en) == len(rn) and sorted(x.split('}')[-1] for x in en) == sorted(x.split('}')[-1] for x in rn) \
-                    and all(a == b or (not b.startswith('{') and a.endswith('}' + b)) for a, b in zip(sorted(en, key=lambda x: x.split('}')[-1] + x), sorted(rn, key=lambda x: x.split('}')[-1] + x))):
-                return dict(doc=doc, ver=ver, known='C17-encode-ignores-default-namespace-undeclaration')
+            import collections
+            ea, ra = [x for x in en if x[0] == '@'], [x for x in rn if x[0] == '@']; ee, re_ = [x for x in en if x[0] != '@'], [x for x in rn if x[0] != '@']
+            kn = []
+            if ea != ra:
+                extra = collections.Counter(ea) - collections.Counter(ra); missing = collections.Counter(ra) - collections.Counter(ea)
+                # listed finding: an unprefixed attribute key is completed with the default namespace in scope when the attribute is not declared (admitted by a wildcard)
+                if ' xmlns="urn' in doc and all(x.startswith('@{') for x in extra) and all('{' not in x for x in missing) and sorted('@' + x.split('}')[1] for x in extra.elements()) == sorted(missing.elements()):
+                    kn.append(KNOWN_A)
+                else: kn.append(None)
+            if ee != re_:
+                if 'xmlns=""' in doc and len(ee) == len(re_) and sorted(x.split('}')[-1] for x in ee) == sorted(x.split('}')[-1] for x in re_) \
+                        and all(a == b or (not b.startswith('{') and a.endswith('}' + b)) for a, b in zip(sorted(ee, key=lambda x: x.split('}')[-1] + x), sorted(re_, key=lambda x: x.split('}')[-1] + x))):
+                    kn.append('C17-encode-ignores-default-namespace-undeclaration')
+                else: kn.append(None)
+            if None not in kn: return dict(doc=doc, ver=ver, known='+'.join(kn))
             return dict(doc=doc, ver=ver, problem=dict(encode_names=sorted(names(enc))[:8], expected=sorted(names(root))[:8]))
     except Exception as e:
         return dict(doc=doc, ver=ver, problem=f'encode raised {type(e).__name__}: {str(e)[:120]}')
@@ -156,7 +192,7 @@ def run(tier, seed, open_findings):
     while len(docs) < n:
         d = gen(rng, 3, {})
         if d.startswith('<p:n') or ' xmlns' in d.split('>')[0]: docs.append(d)
-    docs += ['<n xmlns="urn:u"><c xmlns="">t</c></n>', '<n xmlns="urn:u"><n><c xmlns="">t</c></n><c xmlns="">u</c></n>', '<p:n xmlns:p="urn:u"><c>t</c></p:n>']
+    docs += ['<n xmlns="urn:u"><e:s xmlns:e="urn:s" plain="2">t</e:s></n>', '<n xmlns="urn:u" xmlns:p="urn:u" p:a="1"/>', '<n xmlns="urn:u"><c xmlns="">t</c></n>', '<n xmlns="urn:u"><n><c xmlns="">t</c></n><c xmlns="">u</c></n>', '<p:n xmlns:p="urn:u"><c>t</c></p:n>']
     jobs = [(ver, d) for d in docs for ver in ('1.0', '1.1')]
     res = pmap(eval_doc, jobs)
     used = [r for r in res if r is not None]
@@ -165,8 +201,9 @@ def run(tier, seed, open_findings):
     known = {}
     for r in used:
         if r and 'known' in r:
-            if r['known'] in open_findings: known[r['known']] = known.get(r['known'], 0) + 1
-            else: fails.append(dict(case=dict(doc=r['doc'], ver=r['ver']), observed='encode puts a no-namespace child into the default namespace of its parent', required='encode restores the names'))
+            if all(k in open_findings for k in r['known'].split('+')):
+                for k in r['known'].split('+'): known[k] = known.get(k, 0) + 1
+            else: fails.append(dict(case=dict(doc=r['doc'], ver=r['ver']), observed=r['known'], required='encode restores the names'))
     sk = [eval_same_key((ver, d, c)) for ver in ('1.0', '1.1') for d in SAME_KEY_DOCS for c in ('default', 'BadgerFish', 'GData', 'JsonML')]
     skf = [dict(case=dict(same_key=True, ver=r['ver'], doc=r['doc'], converter=r['converter']), observed=r['problem'], required='encode restores the expanded name of every child') for r in sk if r]
     return [result('C17.same_key_children_own_declarations', f'{len(SAME_KEY_DOCS)} documents whose same-key children bind the prefix differently x 4 conventions x 2 classes', len(sk), skf, exhaustive=True, samples=[dict(doc=SAME_KEY_DOCS[0])]),
